@@ -10,13 +10,13 @@ from ..core import HarnessError, Violation
 
 ID = "C08"
 LEVEL = "exploration"
-RULE = ("exhaustive: 40 representative constrained nodes (every type; value, precision, bounds, lengths, alphabet, regex, list forms, dict forms, any, alias) x the whole zoo (70 objects) x 3 embeddings (alone, typed-list element, dict value); then Hypothesis draws any declarable SchemaSpec (depth<=3, satisfiable or not, float nodes with "
+RULE = ("exhaustive: 42 representative constrained nodes (every type; value, precision, bounds, lengths, alphabet, regex, list forms, dict forms, any, alias) x the whole zoo (70 objects) x 3 embeddings (alone, typed-list element, dict value); then Hypothesis draws any declarable SchemaSpec (depth<=3, satisfiable or not, float nodes with "
         "value+precision included) and a value from the hostile zoo (nan, +-inf, -0.0, ints beyond "
         "2**64 and 10**400, Decimal, Fraction, complex, tuples, sets, bytearray, memoryview, range, "
         "plain subclasses of int/float/str/bytes/list/dict, OrderedDict, defaultdict, UUID v1/3/5/nil, "
         "aware/naive/extreme datetimes and dates, ..., Nil, NotImplemented, functions, classes, "
         "modules, object(), surrogate/NUL/long strings, dicts with None/tuple/float/bytes/frozenset "
-        "keys): alone, injected at a drawn position (element, dict value, dict key) of an otherwise "
+        "keys, dicts holding the Ellipsis object as a key): alone, injected at a drawn position (element, dict value, dict key) of an otherwise "
         "conforming value, or placed at nodes whose type guard it passes. distinct = canonical JSON "
         "of the case; non-trivial = a zoo item that passes the node's isinstance guard or sits at "
         "depth>=1")
